@@ -69,12 +69,14 @@ Candidate(u, post, ev) ==
 Excused(u, pre, post, ev, i) ==
     \/ i \in post.incl
     \/ u[i].e < post.ep
-    \/ i \in ev.inv
+    \* (a transaction of a LATER epoch is parked: the ledger's validation refuses it for its epoch as long as it waits, which
+    \* is not "made invalid" - it leaves only by the other excuses)
+    \/ (i \in ev.inv /\ u[i].e <= post.ep)
     \* ... or follows a transaction that can never be applied any more for another reason than a consumed nonce (a
     \* predecessor whose nonce was merely consumed - by a competing transaction in the block - leaves its successors
     \* perfectly valid: they stay)
     \/ \E j \in pre.any : /\ u[j].s = u[i].s /\ u[j].e = u[i].e /\ u[j].n <= u[i].n
-                           /\ j \in ev.inv /\ ~Stale(u, post, j)
+                           /\ j \in ev.inv /\ ~Stale(u, post, j) /\ u[j].e <= post.ep
 Retained(u, pre, post, ev) == \A i \in pre.pool : i \notin post.pool => Excused(u, pre, post, ev, i)
 Accepted(pre, post, ev) == (ev.ev = "Add" /\ ev.res = "ok" /\ ~pre.sync) => ev.tx \in post.pool
 
